@@ -208,8 +208,7 @@ def _walk_apps(formulas: Sequence[Any], lib: SpecLib, seen_terms: set[int]):
             continue
         seen_terms.add(tid)
         if z3.is_quantifier(t):
-            stack.append(t.body())
-            continue
+            continue  # bound variables: nothing inside can be instantiated at the top level
         if z3.is_app(t):
             f = lib.by_decl.get(t.decl().get_id())
             if f is not None:
